@@ -532,3 +532,29 @@ func AfterFunc(d time.Duration, f func()) *Timer {
 	})
 	return t
 }
+
+// DrainTo removes buffered elements (oldest first) until at most keep are left and returns how many are left. For
+// harness set-up code only: it is not a scheduling point (a state the harness starts from, not a step of the
+// program under test).
+func (c *Chan[T]) DrainTo(keep int) int {
+	if c == nil {
+		return 0
+	}
+	if mode != Controlled {
+		for len(c.real) > keep {
+			select {
+			case <-c.real:
+			default:
+				return len(c.real)
+			}
+		}
+		return len(c.real)
+	}
+	var zero T
+	for c.core.n > keep && len(c.buf) > 0 {
+		c.buf[0] = zero
+		c.buf = c.buf[1:]
+		c.core.n--
+	}
+	return c.core.n
+}
